@@ -83,3 +83,4 @@ Example C05_nonvacuous :
   /\ union_safe (decode_gen no_decf) (encode_gen sigma_rev no_encf) nv_ty nv_val = true
   /\ bind (run_transport TrJson (to_dict_gen sigma_rev no_encf nv_val)) (decode_gen no_decf nv_ty) = Ok nv_val.
 Proof. vm_compute. repeat split; reflexivity. Qed.
+Print Assumptions C05_nonvacuous.
